@@ -147,6 +147,8 @@ def run(tier):
         return rep.finish()
     c11.check_bitpack(rep, tier, rng, drv, run_)
     check_rle_conformance(rep, tier, rng, drv, run_)
+    # legal multi-group / zero-length-run streams read through the STREAMING decoder under chunking and skipping
+    c11.check_rle(rep, tier, rng, drv, run_, parts=("ops",))
     try:
         import c11_enc2
     except ImportError:
